@@ -1,6 +1,7 @@
 (* C01 - runtime property: statements over the transition-system models (Mux/Pipe.v, Mux/Accept.v); see also the sibling files. *)
 From Coq Require Import List NArith ZArith Bool Arith.
 From SA Require Import Base.Tok Gen.Shapes Mux.Lts Mux.Pipe Mux.Accept Mux.Runtime Mux.Runtime_proofs.
+From SA Require Import Mux.WsAdapter Mux.WsAdapter_proofs.
 From SA Require Gen.Shapes2.
 From Coq Require Import String.
 Import ListNotations.
@@ -28,3 +29,37 @@ Theorem c01_runtime_glue_facts :
   Gen.Shapes2.client_handshake_deadline_cleared = "SetDeadline(time.Time{})"%string.
 Proof. repeat split; reflexivity. Qed.
 Print Assumptions c01_runtime_glue_facts.
+
+(* The websocket byte-stream adapter (websockettunnel_connection.go): Write cuts into messages of at most BufferSize octets without
+   losing or reordering anything, and Read - whatever buffer sizes the caller uses, smaller or larger than a message - hands the
+   octets back in order: what has been read, followed by what the adapter still holds, is exactly what was written. Relative to the
+   websocket library delivering whole binary messages in order. *)
+Theorem c01_ws_write_exact : forall (A : Type) bufsize (p : list A),
+  List.concat (ws_write bufsize (write_fuel p) p) = p /\
+  (0 < bufsize -> Forall (fun m => List.length m <= bufsize) (ws_write bufsize (write_fuel p) p)).
+Proof. intros A bufsize p. split; [apply ws_write_concat | intros H; apply ws_write_sizes; [exact H | unfold write_fuel; apply le_n]]. Qed.
+Print Assumptions c01_ws_write_exact.
+
+Theorem c01_ws_stream_fidelity : forall (A : Type) bufsize (writes : list (list A)) (ns : list nat) outs s',
+  ws_reads {| pending := []; queue := flat_map (fun p => ws_write bufsize (write_fuel p) p) writes |} ns = (outs, s') ->
+  List.concat outs ++ content s' = List.concat writes.
+Proof. exact ws_stream_fidelity. Qed.
+Print Assumptions c01_ws_stream_fidelity.
+
+(* every read with a non-empty buffer makes progress while a non-empty rest or message is there (no read returns nothing for ever) *)
+Theorem c01_ws_read_progress : forall (A : Type) (s : rstate A) n, 0 < n ->
+  pending s <> [] \/ (exists m q, pending s = [] /\ queue s = m :: q /\ m <> []) ->
+  exists out s', ws_read s n = Some (out, s') /\ out <> [].
+Proof. exact ws_read_progress. Qed.
+Print Assumptions c01_ws_read_progress.
+
+(* the adapter as it was before the repair 4e88db5 dropped a message whenever the caller's buffer was smaller than it *)
+Theorem c01_ws_old_drops_refuted : forall (A : Type) (m : list A) q n, n < List.length m ->
+  ws_read_old {| pending := []; queue := m :: q |} n = Some (None, {| pending := []; queue := q |}).
+Proof. exact ws_read_old_drops. Qed.
+Print Assumptions c01_ws_old_drops_refuted.
+
+Example c01_ws_nonvacuous :
+  ws_reads {| pending := []; queue := ws_write 4 (write_fuel [1;2;3;4;5;6;7;8;9]) [1;2;3;4;5;6;7;8;9] |} [3; 3; 10; 1]
+  = ([[1;2;3]; [4]; [5;6;7;8]; [9]], {| pending := []; queue := [] |}).
+Proof. reflexivity. Qed.
